@@ -256,7 +256,13 @@ def plotDiagramsOld (cast : α → α) (arg : DgmsArg α) (o : Opts α) : Except
       | none => .error .value
       | some r => .ok (draw o ds labels r)
 
-/-! ### matching plots (visuals.py:171-232, 235-288) -/
+/-! ### matching plots (visuals.py: `bottleneck_matching`, `wasserstein_matching`)
+
+  The diagrams may contain points with infinite death (`Dgm α`).  Since /repo 3ef18e2 both functions
+  filter them out before indexing (`dgm[np.isfinite(dgm[:, 1])]`, then the `(0,0)` placeholder if nothing
+  is left) while the scatter plot still shows every point.  The wasserstein variant substitutes the
+  placeholder for an empty diagram BEFORE the filter, so the placeholder is also what `plot_diagrams`
+  shows there (`placeholderD`); `placeholder (finitePart (placeholderD d)) = placeholder (finitePart d)`. -/
 
 /-- a matching row `[i, j, d]` after `int(i)`, `int(j)` -/
 abbrev Row (α : Type) := Int × Int × α
@@ -321,50 +327,77 @@ def argmax? : List α → Option Nat
 
 def asDgm (d : FDgm α) : Dgm α := d.map fun p => (p.1, some p.2)
 
+/-- `dgm[np.isfinite(dgm[:, 1])]`: the points with finite death, in order (/repo 3ef18e2).  These are the
+    points the rows of a matching returned by `bottleneck` / `wasserstein` index: both drop the points
+    with non-finite death before they number the rest. -/
+def finitePart (d : Dgm α) : FDgm α := d.filterMap fun p => p.2.map fun e => (p.1, e)
+
+/-- what the code indexed BEFORE /repo 3ef18e2: the diagram as passed, infinite deaths included
+    (`infv` stands for the float `inf` those rows carry) -/
+def allPoints (infv : α) (d : Dgm α) : FDgm α := d.map fun p => (p.1, p.2.getD infv)
+
+/-- `if dgm.size == 0: dgm = np.array([[0, 0]])` on a diagram that is handed on to `plot_diagrams` -/
+def placeholderD (d : Dgm α) : Dgm α := if d.isEmpty then [(0, some 0)] else d
+
 def matchOpts (labels : List String) : Opts α := { labels := .many labels }
 
 def bnStyle (maxIdx idx : Nat) : Style := if idx = maxIdx then .matchMax else .matchOther
 
-/-- `bottleneck_matching(dgm1, dgm2, matching, labels, ax)`; `axOf` distinguishes the repaired code
-    (everything on the given axes) from the code before /repo 64802c3 -/
-def bottleneckMatchingWith (axOf : Bool → Axes) (cast : α → α) (c s : α) (d1 d2 : FDgm α)
-    (rows : List (Row α)) (labels : List String) : Except Err (Fig α) :=
-  match plotDiagrams cast (.many [asDgm d1, asDgm d2]) (matchOpts labels) with
+/-- `bottleneck_matching(dgm1, dgm2, matching, labels, ax)`: the scatter plot shows ALL points of the two
+    diagrams (infinite deaths on the ∞ line); the segments are drawn between the points `pts dgm` the rows
+    index — `finitePart` in the repaired code — with the `(0,0)` placeholder when there is none.
+    `axOf` distinguishes the repaired code (everything on the given axes) from the code before
+    /repo 64802c3. -/
+def bottleneckMatchingWith (pts : Dgm α → FDgm α) (axOf : Bool → Axes) (cast : α → α) (c s : α)
+    (d1 d2 : Dgm α) (rows : List (Row α)) (labels : List String) : Except Err (Fig α) :=
+  match plotDiagrams cast (.many [d1, d2]) (matchOpts labels) with
   | .error e => .error e
   | .ok fig =>
     match argmax? (rows.map fun r => r.2.2) with
     | none => .error .value
     | some maxIdx =>
-      match segments c s (placeholder d1) (placeholder d2) (bnStyle maxIdx) axOf 0 rows with
+      match segments c s (placeholder (pts d1)) (placeholder (pts d2)) (bnStyle maxIdx) axOf 0 rows with
       | .error e => .error e
       | .ok segs => .ok { fig with artists := fig.artists ++ segs }
 
-def bottleneckMatching (cast : α → α) (c s : α) (d1 d2 : FDgm α) (rows : List (Row α))
+def bottleneckMatching (cast : α → α) (c s : α) (d1 d2 : Dgm α) (rows : List (Row α))
     (labels : List String) : Except Err (Fig α) :=
-  bottleneckMatchingWith (fun _ => .given) cast c s d1 d2 rows labels
+  bottleneckMatchingWith finitePart (fun _ => .given) cast c s d1 d2 rows labels
 
 /-- before 64802c3: the `i == -1` branch called `plt.plot` -/
-def bottleneckMatchingOld (cast : α → α) (c s : α) (d1 d2 : FDgm α) (rows : List (Row α))
+def bottleneckMatchingOld (cast : α → α) (c s : α) (d1 d2 : Dgm α) (rows : List (Row α))
     (labels : List String) : Except Err (Fig α) :=
-  bottleneckMatchingWith (fun second => if second then .current else .given) cast c s d1 d2 rows labels
+  bottleneckMatchingWith finitePart (fun second => if second then .current else .given) cast c s d1 d2 rows labels
 
-/-- `wasserstein_matching`: segments first, then `plot_diagrams` on the (placeholder-substituted) diagrams -/
-def wassersteinMatchingWith (axOf : Bool → Axes) (cast : α → α) (c s : α) (d1 d2 : FDgm α)
-    (rows : List (Row α)) (labels : List String) : Except Err (Fig α) :=
-  match segments c s (placeholder d1) (placeholder d2) (fun _ => .wass) axOf 0 rows with
+/-- before 3ef18e2: the rows indexed the diagrams as passed (infinite deaths included) -/
+def bottleneckMatchingIdxOld (infv : α) (cast : α → α) (c s : α) (d1 d2 : Dgm α) (rows : List (Row α))
+    (labels : List String) : Except Err (Fig α) :=
+  bottleneckMatchingWith (allPoints infv) (fun _ => .given) cast c s d1 d2 rows labels
+
+/-- `wasserstein_matching`: segments first (between the points `pts dgm` the rows index, `(0,0)`
+    placeholder when there is none), then `plot_diagrams` on the UNFILTERED diagrams (an empty one
+    replaced by the placeholder) -/
+def wassersteinMatchingWith (pts : Dgm α → FDgm α) (axOf : Bool → Axes) (cast : α → α) (c s : α)
+    (d1 d2 : Dgm α) (rows : List (Row α)) (labels : List String) : Except Err (Fig α) :=
+  match segments c s (placeholder (pts d1)) (placeholder (pts d2)) (fun _ => .wass) axOf 0 rows with
   | .error e => .error e
   | .ok segs =>
-    match plotDiagrams cast (.many [asDgm (placeholder d1), asDgm (placeholder d2)]) (matchOpts labels) with
+    match plotDiagrams cast (.many [placeholderD d1, placeholderD d2]) (matchOpts labels) with
     | .error e => .error e
     | .ok fig => .ok { fig with artists := segs ++ fig.artists }
 
-def wassersteinMatching (cast : α → α) (c s : α) (d1 d2 : FDgm α) (rows : List (Row α))
+def wassersteinMatching (cast : α → α) (c s : α) (d1 d2 : Dgm α) (rows : List (Row α))
     (labels : List String) : Except Err (Fig α) :=
-  wassersteinMatchingWith (fun _ => .given) cast c s d1 d2 rows labels
+  wassersteinMatchingWith finitePart (fun _ => .given) cast c s d1 d2 rows labels
 
-def wassersteinMatchingOld (cast : α → α) (c s : α) (d1 d2 : FDgm α) (rows : List (Row α))
+def wassersteinMatchingOld (cast : α → α) (c s : α) (d1 d2 : Dgm α) (rows : List (Row α))
     (labels : List String) : Except Err (Fig α) :=
-  wassersteinMatchingWith (fun second => if second then .current else .given) cast c s d1 d2 rows labels
+  wassersteinMatchingWith finitePart (fun second => if second then .current else .given) cast c s d1 d2 rows labels
+
+/-- before 3ef18e2 -/
+def wassersteinMatchingIdxOld (infv : α) (cast : α → α) (c s : α) (d1 d2 : Dgm α) (rows : List (Row α))
+    (labels : List String) : Except Err (Fig α) :=
+  wassersteinMatchingWith (allPoints infv) (fun _ => .given) cast c s d1 d2 rows labels
 
 end
 
